@@ -1058,6 +1058,8 @@ register(PropertySpec(
              "each element of a flattened collection is a value of its own (own identifier), so rows for different elements are different rows"),
         Rule("REQUEST-DELEGATED", _lazy("subquery", "rule_request_delegated"), 4,
              "an evaluation method that delegates to another evaluation method of the same node hands the request for false rows on unchanged (entity and set_of sub-queries behave alike on the left of `|`)"),
+        Rule("SELECTOR-NO-CACHE", _lazy("cacheidx", "rule_selector_no_cache"), 1,
+             "conclusion selectors never answer from a cache (a replayed row would take its conclusion from a stale branch flag, and which rows are replayed depends on the order of operands and domains)"),
     ],
     explanation="Two of the six listed rewrites are decided: mirrored comparisons and contains/in_, by the OPDEN "
                 "denotation rule (C01). Commutativity/associativity of and/or, declaration/selection order and domain "
